@@ -281,8 +281,10 @@ def _gen_mode(rng, allow_concat=True, base=None):
         cur = {"k": "concat", "children": children}
         for _ in range(rng.choice([0, 0, 1, 2])):
             cur, total = _dataset_level(rng, rng.choice(DATASET_LEVEL), cur, total)
-        return {"k": "mode", "mode": rng.choice(["x", "x", "index x", "x class"]), "return_ctx": rng.random() < 0.3, "cform": "compose",
-                "child": cur}, total, None
+        node = {"k": "mode", "mode": rng.choice(["x", "x", "index x", "x class"]), "return_ctx": rng.random() < 0.3, "cform": "compose",
+                "child": cur}
+        _concat_root_collators(rng, node)
+        return node, total, None
     chain, info = gen_chain(rng, base=base)
     return chain, info["n"], info
 
@@ -297,8 +299,50 @@ def _fix_cforms(top):
     return top
 
 
-def gen_sim_stack(rng):
-    return _fix_cforms(_gen_sim_stack(rng))
+def _concat_root_collators(rng, mode_node, prefix=""):
+    """stochastic collators registered on the member roots of a concat; the collate function is built from root.collators
+    (KDConcatDataset.collators itself is empty by design)"""
+    if rng.random() >= 0.6:
+        return
+    roots, seen = [], set()
+    for r in _nodes(mode_node):
+        if r["k"] == "root" and id(r) not in seen:
+            seen.add(id(r))
+            roots.append(r)
+    for j, r in enumerate(roots):
+        r["collators"] = [{"c": "draw", "tag": f"{prefix}root{j}.collator{i}"} for i in range(rng.choice([1, 1, 2]))]
+    mode_node["collate_roots"] = True
+    mode_node["return_ctx"] = False
+    mode_node["cform"] = "compose"
+
+
+def _maybe_bare(rng, top, p=0.15):
+    """the same stack handed to the workers WITHOUT a ModeWrapper on top (harness adapter serving getitem_x)"""
+    import json
+    if top["k"] == "mode" and rng.random() < p and '"c": "mix"' not in json.dumps(top):
+        top["k"], top["mode"], top["return_ctx"] = "bare", "x", False
+    return top
+
+
+WANT = {
+    "bare": lambda top: top["k"] == "bare" and any(n["k"] == "root" and n.get("collators") for n in _nodes(top)),
+    "concat_collators": lambda top: any(n.get("collate_roots") for n in _nodes(top)),
+    "mix": lambda top: any(n["k"] == "mix" for n in _nodes(top)),
+}
+
+
+def _until(rng, gen, want):
+    """rejection sampling towards a stack family (every run covers every family, independent of the seed)"""
+    top = gen()
+    for _ in range(200):
+        if want is None or WANT[want](top):
+            break
+        top = gen()
+    return top
+
+
+def gen_sim_stack(rng, want=None):
+    return _until(rng, lambda: _maybe_bare(rng, _fix_cforms(_gen_sim_stack(rng)), p=0.5 if want == "bare" else 0.15), want)
 
 
 def _gen_sim_stack(rng):
@@ -437,8 +481,8 @@ def gen_probe_chain(rng, prefix, allow_sched=True, allow_collators=True, root=No
     return node, n
 
 
-def gen_probe_stack(rng):
-    return _fix_cforms(_gen_probe_stack(rng))
+def gen_probe_stack(rng, want=None):
+    return _until(rng, lambda: _maybe_bare(rng, _fix_cforms(_gen_probe_stack(rng)), p=0.5 if want == "bare" else 0.2), want)
 
 
 def _gen_probe_stack(rng):
@@ -463,5 +507,7 @@ def _gen_probe_stack(rng):
         kids = [p[0]["child"] for p in parts]
         if rng.random() < 0.5:
             kids.reverse()
-        return {"k": "mode", "mode": "x", "return_ctx": False, "cform": "compose", "child": {"k": "concat", "children": kids}}
+        node = {"k": "mode", "mode": "x", "return_ctx": False, "cform": "compose", "child": {"k": "concat", "children": kids}}
+        _concat_root_collators(rng, node, prefix="c.")
+        return node
     return gen_probe_chain(rng, "")[0]
